@@ -352,9 +352,33 @@ def pool_context_target(verdict, tier, seed):
     return n_eval
 
 
+def kernel_temperature(verdict, tier, seed):
+    """trace validation (SMCTrace.tla, clause KernelTemperature) of real runs: the temperature of the
+    target each kernel call is handed is the temperature of the stage (forks: runs before torch / jax are
+    initialised in this process)"""
+    import random
+    import smc_checks
+    specs = smc_checks.corpus_kernel_temperature(tier, seed, random.Random(seed + 41))
+    groups = smc_checks.build_groups(specs)
+    errs = [g for g in groups if "error" in g]
+    if errs:
+        raise MachineryError("corpus build failed:\n" + errs[0]["error"])
+    verdicts, s_, t_ = smc_checks.validate(groups, "C05runs")
+    n = 0
+    for g in groups:
+        n += len(g["runs"])
+        for (ri, clause) in verdicts[g["id"]]:
+            if clause == "KernelTemperature":
+                verdict.violation(smc_checks.signature(clause, g, ri),
+                                  f"KernelTemperature failed on a real {g['cfg']['sampler']} run (group {g['id']}): a kernel was handed the target at another temperature than the stage it mutates",
+                                  g.get("spec"))
+    return {"kernel_temperature_runs": n, "tlc_states": s_, "tlc_transitions": t_}
+
+
 def main(prop, tier, seed, replay_path=None):
     t0 = time.time()
     verdict = Verdict(prop)
+    kt = kernel_temperature(verdict, tier, seed) if not replay_path else {}
     consts = {"Vals": "<- MCVals", "Js": "= {1, 4, 8}" if tier == "quick" else "= {1, 2, 3, 4, 5, 6, 7, 8}",
               "Jacs": "<- MCJacs", "Kinds": '= {"smc", "mcmc"}', "MaxCases": "= 100000"}
     cases, r, ncases = tlacases.export_cases("MC_Target", consts, name="target", timeout=3000)
@@ -384,7 +408,7 @@ def main(prop, tier, seed, replay_path=None):
            "evaluations": n_eval + n_pre, "distinct_nontrivial": len(distinct),
            "rule": "cases = (beta in eighths, log q, log L, log pi, log-Jacobian incl. -inf / NaN) enumerated by TLC from Target.tla with the exact expected value, evaluated through each sampler class's log_prob in the listed namespaces/widths; distinct = distinct (kind, beta, q, L, pi) tuples; plus the pre-image clause on 7 real transform configurations",
            "exhaustive": tier != "quick", "tlc_cases": ncases, "sampler_namespace_combinations": [list(c) for c in combos],
-           "preimage_points": n_pre, "laws_checked_by_tlc": ["ZeroPriorMinusInf", "NanToMinusInf", "FiniteIffAllFinite", "TargetDef"],
+           "preimage_points": n_pre, "kernel_temperature_runs": kt.get("kernel_temperature_runs", 0), "laws_checked_by_tlc": ["ZeroPriorMinusInf", "NanToMinusInf", "FiniteIffAllFinite", "TargetDef"],
            "binding_selftest": "reference shifted by 1 rejected", "known_findings_hit": known}
     cov.update(disp)
     write_evidence(prop, tier, seed, time.time() - t0, cov, [STD_ASSUMPTIONS[2],
